@@ -513,6 +513,9 @@ func (e *Enc) callStatic(ci ssa.CallInstruction, c *ssa.CallCommon, fn *ssa.Func
 	}
 	fc := e.contractOf(fn)
 	if fc == nil {
+		if e.canInline(fn) {
+			return e.inlineCall(ci, fn, args)
+		}
 		e.assumed["call of "+shortFuncName(fn)+" (no contract): all heaps havocked, assumed not to panic"] = true
 		e.cur = e.havocAll(e.cur)
 		return e.freshResults(sig), nil
@@ -913,7 +916,7 @@ func (e *Enc) handleExceptional() error {
 
 // execBlockFrom runs a block with an explicit entry guard and state (the recover block).
 func (e *Enc) execBlockFrom(b *ssa.BasicBlock, g Term, st *State) error {
-	gc := e.sc.Declare(fmt.Sprintf("g%d", b.Index), SBool)
+	gc := e.sc.Declare(fmt.Sprintf("g%s%d", e.inl, b.Index), SBool)
 	e.sc.Assert(Eq(gc, g))
 	e.guard[b] = gc
 	e.curBlock = b
@@ -1894,4 +1897,105 @@ func (e *Enc) addTaintDeep(t Term, cond Term) {
 			e.addTaint(Term{m, SReal}, cond)
 		}
 	}
+}
+
+
+// ---------------------------------------------------------------------------
+// Inlining of module functions that have no contract: a helper extracted from (or always used by) a
+// function under contract is executed in place, in the caller's state, so that moving code into an
+// unexported helper does not turn the call into "everything may change". Restrictions: no defer,
+// recover, go, select or closure creation in the helper, no recursion, nesting depth at most 3.
+// Loops of the helper are numbered after the caller's loops and may be given invariants by the
+// caller's contract (`loop k invariant`); spec names not found in the helper are looked up in the
+// functions it is inlined into.
+
+func (e *Enc) canInline(fn *ssa.Function) bool {
+	if e.inlineDepth >= 3 || fn.Recover != nil || len(fn.Blocks) == 0 || e.inlining[fn] || len(fn.FreeVars) > 0 {
+		return false
+	}
+	// (in a variant pass the inlined body runs under the same interference declaration as its caller: the
+	// environment step is applied after each of its calls as well)
+	n := 0
+	for _, b := range fn.Blocks {
+		for _, ins := range b.Instrs {
+			n++
+			switch ins.(type) {
+			case *ssa.Defer, *ssa.Go, *ssa.Select, *ssa.RunDefers, *ssa.MakeClosure:
+				return false
+			}
+		}
+	}
+	return n <= 400
+}
+
+func (e *Enc) inlineCall(ci ssa.CallInstruction, fn *ssa.Function, args []Term) ([]Term, error) {
+	if e.inlining == nil {
+		e.inlining = map[*ssa.Function]bool{}
+	}
+	e.inlining[fn] = true
+	defer delete(e.inlining, fn)
+	// save the caller's context
+	sFn, sRets, sBlock, sInl, sEntryG, sExtra := e.fn, e.rets, e.curBlock, e.inl, e.entryGuard, e.extra
+	sDebug, sOrd := e.debugNames, e.ordCache
+	e.inlineSeq++
+	e.inlineDepth++
+	e.inl = fmt.Sprintf("i%d_", e.inlineSeq)
+	e.fnStack = append(e.fnStack, sFn)
+	e.fn = fn
+	e.rets = nil
+	e.debugNames = nil
+	e.ordCache = nil
+	e.entryGuard = e.curGuard
+	for i, p := range fn.Params {
+		if i < len(args) {
+			e.vals[p] = args[i]
+		}
+	}
+	e.findLoopsFor(fn)
+	e.classifyLocalsOf(fn)
+	var err error
+	for _, b := range e.rpo(fn.Blocks[0]) {
+		if err = e.execBlock(b, b == fn.Blocks[0]); err != nil {
+			break
+		}
+	}
+	rets := e.rets
+	// restore
+	e.fn, e.rets, e.curBlock, e.inl, e.entryGuard, e.extra = sFn, sRets, sBlock, sInl, sEntryG, sExtra
+	e.debugNames, e.ordCache = sDebug, sOrd
+	e.fnStack = e.fnStack[:len(e.fnStack)-1]
+	e.inlineDepth--
+	if err != nil {
+		return nil, err
+	}
+	e.abstracted["call of "+shortFuncName(fn)+" (no contract): inlined"] = true
+	sig := fn.Signature
+	if len(rets) == 0 {
+		// the helper never returns normally (always panics): nothing after the call is reachable
+		ng := e.sc.Declare(fmt.Sprintf("g%sret", fmt.Sprintf("i%d_", e.inlineSeq)), SBool)
+		e.sc.Assert(Eq(ng, TFalse))
+		e.curGuard, e.blockGuard = ng, ng
+		return e.freshResults(sig), nil
+	}
+	var conds []Term
+	var states []*State
+	for _, r := range rets {
+		conds = append(conds, r.cond)
+		states = append(states, r.state)
+	}
+	ng := e.sc.Declare(fmt.Sprintf("gret_i%d", e.inlineSeq), SBool)
+	e.sc.AssertDef(ng.S, Eq(ng, Or(conds...)))
+	e.cur = e.mergeStates(states, conds)
+	e.curGuard, e.blockGuard = ng, ng
+	var results []Term
+	for i := 0; i < sig.Results().Len(); i++ {
+		v := rets[len(rets)-1].results[i]
+		for k := len(rets) - 2; k >= 0; k-- {
+			v = Ite(rets[k].cond, rets[k].results[i], v)
+		}
+		rc := e.sc.Declare(fmt.Sprintf("ret_i%d_%d", e.inlineSeq, i), v.Sort)
+		e.sc.AssertDef(rc.S, Eq(rc, v))
+		results = append(results, rc)
+	}
+	return results, nil
 }
